@@ -499,6 +499,14 @@ fn run_rawlzma(f: &Fields) -> String {
                     }
                 }
             }
+            ["st"] => {
+                if dirty {
+                    outs.push("unspec".into());
+                } else {
+                    let b = d.verif_state_bytes();
+                    outs.push(format!("st:{}:{:08x}", b.len(), crc32(&b)));
+                }
+            }
             ["r"] => {
                 let r = catch_unwind(AssertUnwindSafe(|| d.reset(None)));
                 if r.is_ok() {
@@ -546,6 +554,14 @@ fn run_rawlzma2(f: &Fields) -> String {
                         dirty = true;
                         outs.push(format!("{}:-:{}", verdict(&r), out_repr(&out)))
                     }
+                }
+            }
+            ["st"] => {
+                if dirty {
+                    outs.push("unspec".into());
+                } else {
+                    let b = d.verif_state_bytes();
+                    outs.push(format!("st:{}:{:08x}", b.len(), crc32(&b)));
                 }
             }
             ["r"] => {
@@ -623,6 +639,16 @@ fn run_stream(f: &Fields) -> String {
                 };
                 let r = catch_unwind(AssertUnwindSafe(|| s.flush()));
                 outs.push(format!("f{}", verdict(&r)));
+            }
+            ["st"] => {
+                let s = match st.as_ref() {
+                    Some(s) => s,
+                    None => break,
+                };
+                match s.verif_state_bytes() {
+                    None => outs.push("st:none".to_string()),
+                    Some(b) => outs.push(format!("st:{}:{:08x}", b.len(), crc32(&b))),
+                }
             }
             ["fin"] => {
                 let s = match st.take() {
